@@ -40,7 +40,7 @@ class Part:
     def __init__(self, name, oracle, strategy=None, enum=None,
                  quick=(4, 100), thorough=(16, 1000), exhaustive=False,
                  tmax_quick=120.0, tmax_thorough=1500.0, c_variant="plain",
-                 preload_asan=False, tiers=("quick", "thorough")):
+                 preload_asan=False, tiers=("quick", "thorough"), fuzz=None):
         self.name = name
         self.oracle = oracle
         self.strategy = strategy
@@ -52,6 +52,9 @@ class Part:
         self.c_variant = c_variant
         self.preload_asan = preload_asan
         self.tiers = tiers
+        # fuzz = dict(modules=[...], runs=N, time=seconds): coverage-guided (atheris/libFuzzer) driving
+        # of the SAME hypothesis strategy + oracle through test.hypothesis.fuzz_one_input
+        self.fuzz = fuzz
 
     def plan(self, tier):
         return self.quick if tier == "quick" else self.thorough
@@ -273,6 +276,8 @@ def worker_main(argv):
                         json.dump(shrink_out, f, default=_jdefault)
                     raise AssertionError(kind)
 
+    if part.fuzz is not None and bucket is None:
+        return fuzz_worker(part, one, rec, out, seed, shard, n)
     if part.enum is not None:
         for case in part.enum(shard, nshards, tier):
             one(case)
@@ -304,6 +309,54 @@ def worker_main(argv):
             raise env.HarnessError(f"generator unsatisfiable: {e}")
     if bucket is None:
         rec.dump(out)
+    return 0
+
+
+def fuzz_worker(part, one, rec, out, seed, shard, n):
+    """coverage-guided tier: libFuzzer mutates the byte stream that Hypothesis turns into cases.
+
+    atheris.Fuzz() never returns (libFuzzer exits the process, atexit handlers do not run), so the
+    recorder is dumped from inside the callback; the oracle runs in collect mode (never raises), the
+    saved failing cases are plain JSON like everywhere else.
+    """
+    import importlib
+    import shutil
+    import tempfile
+    env.ensure_deps(("atheris",))
+    import atheris
+    from hypothesis import HealthCheck, given, settings
+    with atheris.instrument_imports(include=list(part.fuzz.get("modules", []))):
+        for m in part.fuzz.get("modules", []):
+            importlib.import_module(m)
+    runs = int(n or part.fuzz.get("runs", 20000))
+    state = {"k": 0}
+
+    def cb(case):
+        one(case)
+        state["k"] += 1
+        k = state["k"]
+        if k in (1, 5, 20, 100) or k % 250 == 0 or k >= runs - 1:
+            rec.dump(out, extra={"fuzz_runs": k})
+
+    test = settings(database=None, deadline=None, suppress_health_check=list(HealthCheck))(
+        given(part.strategy())(cb))
+    corpus = tempfile.mkdtemp(prefix="verif-corpus-")
+    # starting corpus: a few pseudo-random byte strings long enough for Hypothesis to build whole
+    # cases from (an empty corpus leaves libFuzzer with buffers too short for structured cases)
+    import numpy as np
+    srng = np.random.default_rng(seed * 1000 + shard)
+    for i in range(24):
+        ln = int(srng.choice([64, 256, 1024, 4096]))
+        with open(os.path.join(corpus, f"seed{i:02d}"), "wb") as f:
+            f.write(srng.integers(0, 256, ln, dtype=np.uint8).tobytes())
+    rec.dump(out, extra={"fuzz_runs": 0})
+    argv = [sys.argv[0], corpus, f"-runs={runs}", f"-max_total_time={int(part.fuzz.get('time', 120))}",
+            f"-seed={seed * 1000 + shard + 1}", "-max_len=4096", "-print_final_stats=0", "-verbosity=0"]
+    try:
+        atheris.Setup(argv, test.hypothesis.fuzz_one_input)
+        atheris.Fuzz()
+    finally:
+        shutil.rmtree(corpus, ignore_errors=True)
     return 0
 
 
